@@ -62,3 +62,13 @@ Theorem bw_nosuffix_correct_for_every_built_automaton :
     bw_find_overlapping_no_suffix_iter V A h = Ok (spec_nosuffix V pvs h).
 Proof. exact built_nosuffix. Qed.
 Print Assumptions bw_nosuffix_correct_for_every_built_automaton.
+
+Theorem cw_nosuffix_correct_for_every_built_automaton :
+  forall (V : Type) (veqb : V -> V -> bool), (forall a b, veqb a b = true <-> a = b) ->
+  forall nfb (pvs : list (list N * V)) (A : cw_automaton V),
+    4 * total_len V pvs <= U32_MAX - 1 ->
+    cw_build_with_values V Standard nfb pvs = Ok A ->
+  forall cs : list N, Forall scalar cs ->
+    cw_find_overlapping_no_suffix_iter V A (encode_utf8 cs) = Ok (map (to_bytes V cs) (spec_nosuffix V pvs cs)).
+Proof. exact cw_built_nosuffix. Qed.
+Print Assumptions cw_nosuffix_correct_for_every_built_automaton.
